@@ -253,7 +253,7 @@ fn from_conversions() {
     cov!(k > 16, "conv.heap");
     // every conversion is exactly one Repr::from_str (whose contract says: no allocation
     // for <= 16 bytes, otherwise one allocation of capacity == len) of the same text
-    obl!(unsafe { F_CALLS } == 1 && unsafe { F_LEN } == k, "conv.is_one_from_str_of_the_source_text", "C09,C01");
+    sobl!(unsafe { F_CALLS } == 1 && unsafe { F_LEN } == k, "conv.is_one_from_str_of_the_source_text", "C09,C01");
     let mut same = true;
     let mut i = 0;
     while i < 20 {
@@ -262,7 +262,7 @@ fn from_conversions() {
         }
         i += 1;
     }
-    obl!(same, "conv.passes_the_source_bytes", "C09,C01");
+    sobl!(same, "conv.passes_the_source_bytes", "C09,C01");
     core::mem::forget(out);
 }
 static mut F_CALLS: usize = 0;
@@ -358,26 +358,6 @@ dispatch_harness!(dispatch_isize_min, isize::MIN, b"-9223372036854775808", false
 // @harness name=dispatch_i64_17 props=C14,C09 class=B bound="one concrete value: 17-byte text" tier=quick fn=ToLeanString
 dispatch_harness!(dispatch_i64_17, -1000000000000000i64, b"-1000000000000000", false);
 
-// @harness name=dispatch_lean_string props=C15,C08 class=B bound="source text <= 18 bytes, any storage kind" tier=quick fn=ToLeanString covers=dispatch.ls_reachable
-#[kani::proof]
-#[kani::stub(alloc::alloc::alloc, v_alloc)]
-#[kani::stub(alloc::alloc::dealloc, v_dealloc)]
-#[kani::stub(alloc::alloc::realloc, v_realloc)]
-fn dispatch_lean_string() {
-    arm_covers();
-    let (a, ag) = any_small();
-    let f = Frame::snapshot(&a.0, &ag);
-    let c = a.try_to_lean_string();
-    obl!(c.is_ok(), "dispatch.lean_string_ok", "C15");
-    if let Ok(c) = c {
-        // the LeanString arm is clone(): O(1), same bytes
-        obl!(f.same_bits(&c.0) && f.no_alloc_calls(), "dispatch.lean_string_is_a_shallow_clone", "C08,C15");
-        cov!(true, "dispatch.ls_reachable");
-        core::mem::forget(c);
-    }
-    core::mem::forget(a);
-}
-
 // NOTE (measured): symbolic execution through castaway::match_type! is only feasible for the
 // early arms: the integer arms above take 20-70 s each, while the bool / char / NonZero<u32> arms
 // and the generic Display fallback (every one of the 30 casts fails first) exhaust 40 GB. Those
@@ -433,36 +413,138 @@ fn from_utf8_parametric() {
     }
 }
 
-// @harness name=from_utf8_lossy_small props=C16 class=B bound="all byte strings of length <= 2" unwind=8 tier=thorough solver=cadical fn=LeanString::from_utf8_lossy timeout=3000 mem=40
-#[kani::proof]
-fn from_utf8_lossy_small() {
-    let buf: [u8; 2] = kani::any();
-    let n: usize = kani::any();
-    kani::assume(n <= 2);
-    let ls = LeanString::from_utf8_lossy(&buf[..n]);
-    let st = String::from_utf8_lossy(&buf[..n]);
-    obl!(ls.as_str() == &*st, "from_utf8_lossy.same_text_as_string", "C16");
-    core::mem::forget(ls);
-    core::mem::forget(st);
+// The lossy / UTF-16 decoders against specifications written from the definitions (running
+// String's decoders next to them in one harness exhausts 40 GB, see DESIGN 2).
+
+/// UTF-16 decoding from the definition: a high surrogate followed by a low surrogate is one
+/// supplementary scalar; any other surrogate is an error (lossy: U+FFFD)
+fn spec_utf16(buf: &[u16], n: usize, out: &mut [u8; 16]) -> (usize, bool) {
+    let mut len = 0;
+    let mut bad = false;
+    let mut i = 0;
+    let mut k = 0;
+    while k < 4 {
+        if i < n {
+            let u = buf[i] as u32;
+            let c: u32;
+            if u < 0xD800 || u > 0xDFFF {
+                c = u;
+                i += 1;
+            } else if u <= 0xDBFF && i + 1 < n && (buf[i + 1] as u32) >= 0xDC00 && (buf[i + 1] as u32) <= 0xDFFF {
+                c = 0x10000 + ((u - 0xD800) << 10) + ((buf[i + 1] as u32) - 0xDC00);
+                i += 2;
+            } else {
+                c = 0xFFFD;
+                bad = true;
+                i += 1;
+            }
+            let (e, w) = crate::repr::verif_mod::spec_encode(c);
+            let mut j = 0;
+            while j < 4 {
+                if j < w {
+                    out[len + j] = e[j];
+                }
+                j += 1;
+            }
+            len += w;
+        }
+        k += 1;
+    }
+    (len, bad)
 }
 
-// @harness name=from_utf16_small props=C16 class=B bound="all u16 strings of length <= 1" unwind=8 tier=thorough solver=cadical fn=LeanString::from_utf16,LeanString::from_utf16_lossy timeout=3000 mem=40
+// @harness name=from_utf16_spec props=C16 class=B bound="all u16 strings of length <= 3, against UTF-16 decoding written from the definition" unwind=6 tier=quick fn=LeanString::from_utf16,LeanString::from_utf16_lossy timeout=2400 mem=24 covers=utf16.pair,utf16.lone
 #[kani::proof]
-fn from_utf16_small() {
-    let buf: [u16; 1] = kani::any();
+fn from_utf16_spec() {
+    arm_covers();
+    let buf: [u16; 3] = kani::any();
     let n: usize = kani::any();
-    kani::assume(n <= 1);
-    let ls = LeanString::from_utf16(&buf[..n]);
-    let st = String::from_utf16(&buf[..n]);
-    obl!(ls.is_ok() == st.is_ok(), "from_utf16.accepts_exactly_what_string_accepts", "C16");
-    if let (Ok(a), Ok(b)) = (&ls, &st) {
-        obl!(a.as_str() == b.as_str(), "from_utf16.same_text_as_string", "C16");
+    kani::assume(n <= 3);
+    let mut want = [0u8; 16];
+    let (wlen, bad) = spec_utf16(&buf, n, &mut want);
+    cov!(!bad && wlen == 4, "utf16.pair");
+    cov!(bad, "utf16.lone");
+    let strict = LeanString::from_utf16(&buf[..n]);
+    obl!(strict.is_err() == bad, "from_utf16.rejects_exactly_ill_formed_input", "C16");
+    if let Ok(s) = &strict {
+        obl!(text_is(s, &want[..wlen]), "from_utf16.text_is_the_decoded_scalars", "C16");
     }
-    let ll = LeanString::from_utf16_lossy(&buf[..n]);
-    let sl = String::from_utf16_lossy(&buf[..n]);
-    obl!(ll.as_str() == sl.as_str(), "from_utf16_lossy.same_text_as_string", "C16");
-    core::mem::forget(ls);
-    core::mem::forget(st);
-    core::mem::forget(ll);
-    core::mem::forget(sl);
+    let lossy = LeanString::from_utf16_lossy(&buf[..n]);
+    obl!(text_is(&lossy, &want[..wlen]), "from_utf16_lossy.text_with_replacement_characters", "C16");
+    core::mem::forget(strict);
+    core::mem::forget(lossy);
+}
+
+/// UTF-8 lossy decoding from the definition (Unicode "substitution of maximal subparts",
+/// which is what String::from_utf8_lossy documents): at each position either a well-formed
+/// sequence (Table 3-7) is copied, or the longest prefix of one (at least one byte) is replaced
+/// by U+FFFD
+fn spec_utf8_lossy(buf: &[u8], n: usize, out: &mut [u8; 16]) -> usize {
+    let mut len = 0;
+    let mut i = 0;
+    let mut k = 0;
+    while k < 4 {
+        if i < n {
+            let b0 = buf[i];
+            // (needed continuation count, allowed range of the second byte)
+            let (need, lo, hi): (usize, u8, u8) = if b0 < 0x80 { (0, 0, 0) }
+                else if b0 >= 0xC2 && b0 <= 0xDF { (1, 0x80, 0xBF) }
+                else if b0 == 0xE0 { (2, 0xA0, 0xBF) }
+                else if b0 == 0xED { (2, 0x80, 0x9F) }
+                else if b0 >= 0xE1 && b0 <= 0xEF { (2, 0x80, 0xBF) }
+                else if b0 == 0xF0 { (3, 0x90, 0xBF) }
+                else if b0 == 0xF4 { (3, 0x80, 0x8F) }
+                else if b0 >= 0xF1 && b0 <= 0xF3 { (3, 0x80, 0xBF) }
+                else { (9, 0, 0) };
+            let mut got = 0;
+            if need != 9 {
+                let mut j = 1;
+                while j < 4 {
+                    if j <= need && got + 1 == j && i + j < n {
+                        let b = buf[i + j];
+                        let ok = if j == 1 { b >= lo && b <= hi } else { b >= 0x80 && b <= 0xBF };
+                        if ok {
+                            got = j;
+                        }
+                    }
+                    j += 1;
+                }
+            }
+            if need != 9 && got == need {
+                let mut j = 0;
+                while j < 4 {
+                    if j <= need {
+                        out[len + j] = buf[i + j];
+                    }
+                    j += 1;
+                }
+                len += need + 1;
+                i += need + 1;
+            } else {
+                out[len] = 0xEF;
+                out[len + 1] = 0xBF;
+                out[len + 2] = 0xBD;
+                len += 3;
+                i += 1 + got;
+            }
+        }
+        k += 1;
+    }
+    len
+}
+
+// @harness name=from_utf8_lossy_spec props=C16 class=B bound="all byte strings of length <= 4, against lossy decoding written from the definition" unwind=7 tier=quick fn=LeanString::from_utf8_lossy timeout=2400 mem=24 covers=lossy.replaced,lossy.multibyte_kept
+#[kani::proof]
+fn from_utf8_lossy_spec() {
+    arm_covers();
+    let buf: [u8; 4] = kani::any();
+    let n: usize = kani::any();
+    kani::assume(n <= 4);
+    let mut want = [0u8; 16];
+    let wlen = spec_utf8_lossy(&buf, n, &mut want);
+    let got = LeanString::from_utf8_lossy(&buf[..n]);
+    cov!(wlen > n, "lossy.replaced");
+    cov!(wlen == n && n == 4 && buf[0] >= 0xF0, "lossy.multibyte_kept");
+    obl!(text_is(&got, &want[..wlen]), "from_utf8_lossy.text_with_replacement_characters", "C16");
+    core::mem::forget(got);
 }
